@@ -17,6 +17,7 @@ EXEC = os.path.join(HARNESS, "c17_exec.py")
 BASE = dict(MaxMsgs=5, MaxDepth=3, MaxTasks=2, MaxResv=1, ActTypes='{"A", "B"}', MsgTypes='{"m", "A"}', EarlyFinish="TRUE",
             Stack="FALSE", Mode='"gen"', Emit="TRUE", Broken=0)
 M_ONLY = '{"m"}'
+JAVA_STACK = "-Xss64m"        # the transcriptions are recursive scans; long captured lists need a deeper Java stack
 GEN = {
     "quick": [
         ("hand", dict(Mode='"hand"')),
@@ -71,7 +72,7 @@ def emitted(out):
 
 def tlc_universe(name, over, workers):
     cfg, consts = make_cfg(over)
-    r = run_tlc("MC_Helpers", cfg, workers=workers, timeout=1500)
+    r = run_tlc("MC_Helpers", cfg, workers=workers, timeout=1500, env={"JAVA_TOOL_OPTIONS": JAVA_STACK})
     require_ok(r, "MC_Helpers " + name)
     return name, consts, r, ([] if r.violated else emitted(r.out))
 
@@ -158,7 +159,7 @@ def validate_traces(obs_list, batch=1500):
         chunk = obs_list[b:b + batch]
         f = os.path.join(d, "traces_%d.json" % b)
         json.dump({"traces": [_for_tlc(o) for o in chunk]}, open(f, "w"))
-        r = run_tlc("Trace_Helpers", "Trace_Helpers.cfg", env={"TRACE_FILE": f}, timeout=3000)
+        r = run_tlc("Trace_Helpers", "Trace_Helpers.cfg", env={"TRACE_FILE": f, "JAVA_TOOL_OPTIONS": JAVA_STACK}, timeout=3000)
         require_ok(r, "Trace_Helpers")
         states += r.distinct
         acc = {t[1]: t[2] for t in printed_tuples(r.out, "ACC")}
